@@ -377,6 +377,27 @@ carquet_status_t carquet_read_data_page_v1(
         }
     }
 
+    /* A level can be encoded with more bits than the column's maximum needs
+     * (maximum 2 takes 2 bits, which also hold 3). Such a level is neither a
+     * present value nor a legal null; callers that test ">= max" and callers
+     * that test "== max" would disagree about which rows carry a value. */
+    if (reader->max_def_level > 0 && def_levels) {
+        for (int32_t i = 0; i < num_values; i++) {
+            if (def_levels[i] > reader->max_def_level) {
+                CARQUET_SET_ERROR(error, CARQUET_ERROR_DECODE, "Definition level above the column maximum");
+                return CARQUET_ERROR_DECODE;
+            }
+        }
+    }
+    if (reader->max_rep_level > 0 && rep_levels) {
+        for (int32_t i = 0; i < num_values; i++) {
+            if (rep_levels[i] > reader->max_rep_level) {
+                CARQUET_SET_ERROR(error, CARQUET_ERROR_DECODE, "Repetition level above the column maximum");
+                return CARQUET_ERROR_DECODE;
+            }
+        }
+    }
+
     /* Count non-null values */
     int32_t non_null_count = num_values;
     if (def_levels && reader->max_def_level > 0) {
